@@ -54,7 +54,10 @@ pub fn ignore_filter(entry: &DirEntry, ignore: &Option<Gitignore>) -> bool {
         None => true,
         Some(gi) => {
             let path = entry.path();
-            let m = gi.matched(path, path.is_dir());
+            // The walk already knows the entry's type; Path::is_dir()
+            // would stat it again and read any failure as "not a
+            // directory", silently disabling directory-only patterns.
+            let m = gi.matched(path, entry.file_type().is_dir());
             !m.is_ignore()
         }
     }
